@@ -258,6 +258,76 @@ func netPath(r *lib.Run, idx int) {
 			}
 		}
 	}
+	// Batches: one offered element carries several (key, value) pairs. An invalid item under a key that is not stored yet
+	// travels together with valid ones, in every position; whatever the network does with the valid ones, the invalid one
+	// must not end up in the store.
+	var freshBad, freshGood []item
+	usedKey := map[string]bool{}
+	for _, it := range items {
+		usedKey[string(it.key)] = true
+	}
+	for _, h := range w.honest {
+		if !isNodeType(h.typ) || usedKey[string(encKey(h.key))] {
+			continue
+		}
+		for _, class := range []string{"path-nibble-changed", "path-truncated", "path-extended", "cross-key-same-trie", "address-hash-flipped"} {
+			m := w.mutate(rng, h, class)
+			if m == nil {
+				continue
+			}
+			mk, mc := m.bytes()
+			if usedKey[string(mk)] || get(mk) {
+				continue
+			}
+			if ref := refValidate(mk, mc, src); !ref.sszBad && !ref.accept {
+				usedKey[string(mk)] = true
+				freshBad = append(freshBad, item{class: m.class, key: mk, content: mc, why: ref.why})
+				break
+			}
+		}
+		if len(freshGood) < len(freshBad) && !get(encKey(h.key)) {
+			usedKey[string(encKey(h.key))] = true
+			freshGood = append(freshGood, item{class: "honest", key: encKey(h.key), content: encContent(h.typ, h.content), refAccept: true})
+		}
+		if len(freshBad) >= 6 && len(freshGood) >= 6 {
+			break
+		}
+	}
+	batches := 0
+	for bi := 0; bi < len(freshBad) && bi < len(freshGood) && mi < len(markers); bi++ {
+		bad, good := freshBad[bi], freshGood[bi]
+		keys, vals := [][]byte{bad.key, good.key}, [][]byte{bad.content, good.content}
+		switch bi % 3 {
+		case 1:
+			keys, vals = [][]byte{good.key, bad.key}, [][]byte{good.content, bad.content}
+		case 2:
+			if bi+1 < len(freshGood) {
+				keys, vals = [][]byte{good.key, bad.key, freshGood[bi+1].key}, [][]byte{good.content, bad.content, freshGood[bi+1].content}
+			}
+		}
+		n.Queue <- &portalwire.ContentElement{Node: srcID, ContentKeys: keys, Contents: vals}
+		mk := encKey(markers[mi].key)
+		mc := encContent(markers[mi].typ, markers[mi].content)
+		mi++
+		mb := ol.count(mk)
+		n.Queue <- &portalwire.ContentElement{Node: srcID, ContentKeys: [][]byte{mk}, Contents: [][]byte{mc}}
+		deadline := time.Now().Add(15 * time.Second)
+		for ol.count(mk) == mb && time.Now().Before(deadline) {
+			time.Sleep(2 * time.Millisecond)
+		}
+		if ol.count(mk) == mb {
+			r.Inconclusive("network path %d: the marker item after a batch was never offered onward", idx)
+			return
+		}
+		r.Eval(1)
+		batches++
+		if get(bad.key) {
+			r.Violation("network-accepts-invalid:stored:"+typName(bad.key[0])+":in-a-batch", fmt.Sprintf("state.Network stored an item the reference refuses (%s; class %s) that was offered in one element together with valid items (position %d of %d)", bad.why, bad.class, map[int]int{0: 0, 1: 1, 2: 1}[bi%3], len(keys)),
+				map[string]any{"world": idx, "class": bad.class, "content_key": lib.Hex(bad.key), "offer_value": lib.HexShort(bad.content, 400), "reference_reason": bad.why, "batch_size": len(keys)})
+			return
+		}
+	}
+	r.Count("netpath_batches_with_an_invalid_item", batches)
 	r.Count("netpath_worlds", 1)
 	r.Count("netpath_items_judged", judged)
 	r.Count("netpath_items_the_reference_refuses", refused)
